@@ -30,6 +30,8 @@ type WeightedMerkleTrie struct {
 	deleted     map[[32]byte]bool
 	tempDeleted [][]byte
 	created     [][]byte
+	// hashes saved by the commit in progress (whether or not they were in storage before)
+	saved map[[32]byte]bool
 	sync.Mutex
 }
 
@@ -386,6 +388,22 @@ func (t *WeightedMerkleTrie) Commit(collapseLevel int) (storage.Batcher, error) 
 		close(deleteChan)
 		close(createdChan)
 		wg.Wait()
+		// Nodes are content addressed: a hash that was superseded since the last
+		// garbage-collection pass and is saved again by this commit (content deleted
+		// and re-created, rewritten unchanged, or restored) is live and must not stay
+		// staged for deletion.
+		if len(t.saved) > 0 {
+			kept := t.tempDeleted[:0]
+			for _, hash := range t.tempDeleted {
+				var k [32]byte
+				copy(k[:], hash)
+				if !t.saved[k] {
+					kept = append(kept, hash)
+				}
+			}
+			t.tempDeleted = kept
+		}
+		t.saved = nil
 	}()
 	t.collectDeleteAndCreated(deleteChan, createdChan, wg)
 	if ok {
@@ -562,6 +580,7 @@ func commonPrefix(a, b []byte) int {
 
 func (t *WeightedMerkleTrie) collectDeleteAndCreated(deleteChan, createdChan chan []byte, wg *sync.WaitGroup) {
 	t.created = nil
+	t.saved = make(map[[32]byte]bool)
 	wg.Add(2)
 	go func() {
 		for hash := range deleteChan {
@@ -577,6 +596,7 @@ func (t *WeightedMerkleTrie) collectDeleteAndCreated(deleteChan, createdChan cha
 			var k [32]byte
 			copy(k[:], hash)
 			delete(t.deleted, k)
+			t.saved[k] = true
 			// nodes are content addressed: a node with this hash may already be in
 			// storage, owned by an earlier commit (e.g. the checkpoint); it is not
 			// created by this commit and a rollback must not delete it
